@@ -92,9 +92,14 @@ def check_partial(spec, n, names, stats, enum=True, shp=None, perms=None, nested
             p = functools.partial(f, *bound, **{k: vals[k] for k in perm})
         for which, getter in (('signatures.signature', signatures.signature), ('sigtools.signature', sigtools.signature)):
             stats.case()
-            sig, exc = retrieve(getter, p)
             pcase = dict(case, names=list(perm), via=which)
             pdesc = '%s via %s' % (desc if perm == names else desc + ' [keyword order %s]' % (list(perm),), which)
+            try:
+                sig, exc = retrieve(getter, p)
+            except Exception as e:
+                # retrieval either returns or raises ValueError (inspect's contract for "no signature")
+                stats.fail('C19/raised-%s' % type(e).__name__, pcase, '%s raised %s: %s' % (pdesc, type(e).__name__, e))
+                continue
             view = None if sig is None else (canon_params_ident(sig), )
             if which not in first:
                 first[which] = (perm, view, sig)
